@@ -91,6 +91,7 @@ type LoopSpec struct {
 	Invariants []*Clause
 	Decreases  *Clause
 	Houdini    bool
+	SplitExit  bool // code after an unrolled loop is analysed separately per exit iteration
 }
 
 type SplitSpec struct {
@@ -103,6 +104,16 @@ type SpecMacro struct {
 	Name   string
 	Params []string
 	Body   *Expr
+}
+
+// TableLemma: a property of every entry of a read-only global table, proved by
+// evaluating it on the table extracted from the source, then used at each load.
+type TableLemma struct {
+	Pkg, Table string
+	Idx, Val   string
+	E          *Expr
+	Text, Pos  string
+	Props      []string
 }
 
 type UFun struct {
@@ -126,10 +137,12 @@ type Contract struct {
 	Splits   []*SplitSpec
 	Trusted  string
 	Inline   bool
+	NoMerge  bool // path-sensitive execution: states are not merged at joins (small functions only)
 	Safety   bool // generate run-time-check obligations (default true)
 	Pos      string
 	Lets     []*SpecMacro
 	Unfolds  []*Clause
+	Ghosts   []*SpecMacro // ghost results: name := expression over the function's variables at its returns
 }
 
 type ContractSet struct {
@@ -138,6 +151,7 @@ type ContractSet struct {
 	Macros  map[string]*SpecMacro
 	UFuns   map[string]*UFun
 	Axioms  []*Clause
+	TableLemmas []*TableLemma
 	Files   []string
 	NClause int
 }
@@ -298,6 +312,22 @@ func (cs *ContractSet) parseClause(body, pos, pkg string, cur **Contract) error 
 		}
 		cs.UFuns[name] = u
 		return nil
+	case "tablelemma":
+		props, r := splitProps(rest)
+		j := strings.Index(r, ":=")
+		if j < 0 {
+			return fmt.Errorf("tablelemma without :=")
+		}
+		name, params, err := parseHeadList(strings.TrimSpace(r[:j]))
+		if err != nil || len(params) != 2 {
+			return fmt.Errorf("tablelemma head must be name(index, value)")
+		}
+		e, err := parseExpr(strings.TrimSpace(r[j+2:]), pos)
+		if err != nil {
+			return err
+		}
+		cs.TableLemmas = append(cs.TableLemmas, &TableLemma{Pkg: pkg, Table: name, Idx: params[0], Val: params[1], E: e, Text: strings.TrimSpace(r[j+2:]), Pos: pos, Props: props})
+		return nil
 	case "axiom":
 		props, r := splitProps(rest)
 		e, err := parseExpr(r, pos)
@@ -372,6 +402,16 @@ func (cs *ContractSet) parseClause(body, pos, pkg string, cur **Contract) error 
 			return err
 		}
 		c.Lets = append(c.Lets, &SpecMacro{Name: strings.TrimSpace(rest[:j]), Body: e})
+	case "ghost":
+		j := strings.Index(rest, ":=")
+		if j < 0 {
+			return fmt.Errorf("ghost without :=")
+		}
+		e, err := parseExpr(strings.TrimSpace(rest[j+2:]), pos)
+		if err != nil {
+			return err
+		}
+		c.Ghosts = append(c.Ghosts, &SpecMacro{Name: strings.TrimSpace(rest[:j]), Body: e})
 	case "assigns":
 		c.HasAssigns = true
 		for _, a := range strings.Split(rest, ",") {
@@ -386,6 +426,8 @@ func (cs *ContractSet) parseClause(body, pos, pkg string, cur **Contract) error 
 		}
 	case "inline":
 		c.Inline = true
+	case "nomerge":
+		c.NoMerge = true
 	case "nosafety":
 		c.Safety = false
 	case "split":
@@ -432,6 +474,10 @@ func (cs *ContractSet) parseClause(body, pos, pkg string, cur **Contract) error 
 		}
 		switch w2 {
 		case "unroll":
+			if strings.HasSuffix(r2, " split") {
+				ls.SplitExit = true
+				r2 = strings.TrimSpace(strings.TrimSuffix(r2, " split"))
+			}
 			k, err := strconv.Atoi(r2)
 			if err != nil {
 				return err
